@@ -45,14 +45,26 @@ VARIABLES t,            \* the texts
           obs           \* observations after each finished load
 vars == <<t, ti, k, live, start, st, run, goals, out, phase, obs>>
 
-AllTexts == IF NT = 1 THEN { <<a>> : a \in Texts(1) }
+\* long texts (NT = 0 selects them): runs of 3 to 7 clauses followed by another predicate and by a later addition to the first one
+\* (a second run under discontiguous, a second load of a multifile predicate, a replacing load) - a staging area that reuses or
+\* shares storage between predicates only shows with runs of some length
+Cp == <<"cl", "p">>
+Cq == <<"cl", "q">>
+Rep(x, n) == [i \in 1..n |-> x]
+LongPairs == { << <<<<"disc", "p">>>> \o Rep(Cp, n) \o <<Cq>> \o Rep(Cp, m), <<Cq>> >> : n \in {3, 5, 6}, m \in {1, 2} }
+        \cup { << <<<<"multi", "p">>>> \o Rep(Cp, n) \o <<Cq>>, <<<<"multi", "p">>>> \o Rep(Cp, m) >> : n \in {3, 5, 7}, m \in {1, 2} }
+        \cup { << Rep(Cp, n) \o Rep(Cq, 2), Rep(Cp, m) \o <<Cq>> >> : n \in {3, 5}, m \in {1, 3} }
+        \cup { << <<<<"dyn", "p">>>> \o Rep(Cp, 3) \o <<Cq, <<"dir">>>> \o Rep(Cq, 1), <<<<"multi", "p">>, Cp>> >>,
+                << Rep(Cp, 3) \o <<Cq>> \o Rep(Cp, 1), <<Cp>> >> }            \* (the last one: p/1 is discontiguous without a declaration - the load fails)
+AllTexts == IF NT = 0 THEN LongPairs
+            ELSE IF NT = 1 THEN { <<a>> : a \in Texts(1) }
             ELSE IF NT = 2 THEN { <<a, b>> : a \in Texts(1), b \in Texts(2) }
             ELSE { <<a, b, c>> : a \in Texts(1), b \in Texts(2), c \in Texts(3) }
 Init == /\ t \in AllTexts
         /\ ti = 1 /\ k = 1 /\ live = EmptyDb /\ start = EmptyDb /\ st = EmptyDb /\ run = NoRun /\ goals = <<>> /\ out = <<>>
         /\ phase = "stage" /\ obs = <<>>
 
-Id == ti * 10 + k
+Id == ti * 100 + k
 Observe(err, lv, o) == [err |-> err, out |-> o, p |-> [def |-> lv["p"].def, cls |-> lv["p"].cls], q |-> [def |-> lv["q"].def, cls |-> lv["q"].cls],
                         pdyn |-> lv["p"].dyn \/ ~lv["p"].def]
 Fail(err) == /\ phase' = "failed" /\ obs' = Append(obs, Observe(err, live, out))
@@ -91,7 +103,7 @@ Commit == /\ phase = "stage" /\ k > Len(t[ti])
                   /\ obs' = Append(obs, Observe("none", live', out'))
                   /\ UNCHANGED <<t, ti, k, start, st, run, goals>>
 
-NextText == /\ phase \in {"done", "failed"} /\ ti < NT
+NextText == /\ phase \in {"done", "failed"} /\ ti < Len(t)
             /\ ti' = ti + 1 /\ k' = 1 /\ start' = live /\ st' = EmptyDb /\ run' = NoRun /\ goals' = <<>> /\ out' = <<>> /\ phase' = "stage"
             /\ UNCHANGED <<t, live, obs>>
 
@@ -104,12 +116,12 @@ Invisible == phase \in {"stage", "failed"} => live = start
 AllOrNothing == [][phase' = "failed" => live' = start]_vars
 \* a committed predicate holds the text's clauses for it in source order (ids ascend within a text)
 SourceOrder == \A pr \in Preds : \A i, j \in 1..Len(live[pr].cls) :
-                 (i < j /\ live[pr].cls[i] \div 10 = live[pr].cls[j] \div 10) => live[pr].cls[i] < live[pr].cls[j]
+                 (i < j /\ live[pr].cls[i] \div 100 = live[pr].cls[j] \div 100) => live[pr].cls[i] < live[pr].cls[j]
 \* clauses of different texts coexist in one predicate only if it is multifile
-ReplaceUnlessMultifile == \A pr \in Preds : (\E i, j \in 1..Len(live[pr].cls) : live[pr].cls[i] \div 10 # live[pr].cls[j] \div 10) => live[pr].multi
+ReplaceUnlessMultifile == \A pr \in Preds : (\E i, j \in 1..Len(live[pr].cls) : live[pr].cls[i] \div 100 # live[pr].cls[j] \div 100) => live[pr].multi
 \* directives are executed in place (before the commit), initialization goals after it
-DirectivesInPlace == [][out' # out /\ phase' = "stage" /\ ti' = ti => \E d \in 1..99 : out' = Append(out, d) /\ t[ti][d % 10] = <<"dir">>]_vars
+DirectivesInPlace == [][out' # out /\ phase' = "stage" /\ ti' = ti => \E d \in 1..999 : out' = Append(out, d) /\ t[ti][d % 100] = <<"dir">>]_vars
 
-Terminal == phase \in {"done", "failed"} /\ ti = NT
+Terminal == phase \in {"done", "failed"} /\ ti = Len(t)
 Emit == Terminal => PrintT("CASE " \o ToJson([t |-> t, obs |-> obs]))
 =============================================================================
